@@ -85,6 +85,9 @@ type World struct {
 	IsmID, HookH0, IgpI1, MailboxM0, MailboxM1 hyputil.HexAddress
 	TokenT0, TokenT1                           hyputil.HexAddress
 
+	// UseInstr != nil: Recv goes through the instrumented stand instead of the app's own stack
+	UseInstr *Instr
+
 	// CCTP attester (secp256k1, go-ethereum) whose key the harness holds
 	AttesterKeyHex string
 }
